@@ -171,8 +171,58 @@ theorem gen_model_writers :
        "ipfix/rfc5102_model.go LoadExtElements: assign InfoModel",
        "ipfix/rfc5102_model.go LoadExtElements: assign InfoModel[ElementKey{PEN, elementID}]"] := by decide
 
-/-- in `main` the load comes before the statement that spawns the four `run()` loops (and nothing unrecognised in between) -/
+/-- in `main` the load comes before the statement that spawns the four `run()` loops: apart from statements that
+synchronise with nothing (`.setUp`), `main` begins with the signal channel, `signal.Notify`, the options, the load — under
+the guard "the IPFIX or the NetFlow v9 listener is switched on" (F34 repair) —, and only then the start of the listeners
+(nothing unrecognised in between) -/
 theorem gen_load_before_listeners :
-    Gen.ShutdownIR.mainSteps.take 3 = [.notifySigintSigterm, .loadElements, .spawnRunsCounted] := by decide
+    (Gen.ShutdownIR.mainSteps.filter (· ≠ .setUp)).take 5 =
+      [.makeSignalChan 1, .notifySigintSigterm, .getOptions, .loadElementsIf ["IPFIXEnabled", "NetflowV9Enabled"],
+       .spawnRunsCounted] := by decide
+
+/-! ## … and whichever decoder reads the model is switched on (F34)
+
+The load in `main` stands under a guard. F34: the guard named the IPFIX switch alone (F18 had moved the call out of the
+IPFIX listener together with the test it stood under there), so with `-ipfix-enabled=false` the NetFlow v9 decoder — which
+reads the same map — never saw the extension elements of the installed file: its decoding depended on the switch of
+another protocol. The obligation below is stated over regenerated facts so that a future third reader is caught: every
+package whose functions index `ipfix.InfoModel` (`modelReaders`) must be the decoder package of a listener
+(`decoderSwitches`: which package's `New…Decoder` the listener's workers call, which option its `run()` tests first), and
+that listener's switch must be one of the disjuncts of the guard. -/
+
+/-- the guard the load of `main` stands under: `none` = unconditional (then every reader is covered) -/
+def loadGuard (ms : List Shutdown.MStep) : Option (Option (List String)) :=
+  ms.findSome? fun
+    | .loadElementsIf g => some (some g)
+    | .loadElements => some none
+    | _ => none
+
+/-- every reader of the model is the decoder of a listener whose switch is in the guard `g` -/
+def guardCovers (readers : List String) (switches : List (String × String)) (g : Option (Option (List String))) : Bool :=
+  match g with
+  | none => false                      -- no load at all
+  | some none => true                  -- unconditional
+  | some (some opts) => readers.all fun pkg => switches.any fun sw => sw.1 == pkg && opts.contains sw.2
+
+/-- the packages that read the shared model, and which listener decodes with which package under which switch -/
+theorem gen_model_readers :
+    Gen.InfoModelTbl.modelReaders = ["ipfix", "netflow/v9"] ∧
+    Gen.ShutdownIR.decoderSwitches = [("ipfix", "IPFIXEnabled"), ("netflow/v9", "NetflowV9Enabled"),
+                                      ("netflow/v5", "NetflowV5Enabled"), ("sflow", "SFlowEnabled")] := by decide
+
+/-- **the obligation**: every package that reads `ipfix.InfoModel` is the decoder of a listener whose switch is a
+disjunct of the guard of the load (stated on the regenerated lists themselves, not on their pinned values: a third reader,
+a reader that is no listener's decoder, or a guard that loses a disjunct makes it false) -/
+theorem gen_load_guard_covers_readers :
+    guardCovers Gen.InfoModelTbl.modelReaders Gen.ShutdownIR.decoderSwitches (loadGuard Gen.ShutdownIR.mainSteps) = true := by
+  decide
+
+/-- regression witness (the guard before the F34 repair, `if opts.IPFIXEnabled`): the NetFlow v9 reader is not covered;
+and the obligation is sensitive to a third reader and to a reader that is not a listener's decoder -/
+theorem f34_old_guard_misses_v9 :
+    guardCovers Gen.InfoModelTbl.modelReaders Gen.ShutdownIR.decoderSwitches (some (some ["IPFIXEnabled"])) = false ∧
+    guardCovers ("sflow" :: Gen.InfoModelTbl.modelReaders) Gen.ShutdownIR.decoderSwitches (loadGuard Gen.ShutdownIR.mainSteps) = false ∧
+    guardCovers ("producer" :: Gen.InfoModelTbl.modelReaders) Gen.ShutdownIR.decoderSwitches (loadGuard Gen.ShutdownIR.mainSteps) = false ∧
+    guardCovers Gen.InfoModelTbl.modelReaders Gen.ShutdownIR.decoderSwitches (loadGuard []) = false := by decide
 
 end Vflow.C20
